@@ -21,9 +21,12 @@ Inductive kernel_entry := Translated (e : expr) | Opaque (reason : string).
 
 Record special := { sp_li2 : R -> R; sp_snp : nat -> nat -> R -> R; sp_snpim : nat -> nat -> R -> R; sp_zeta3 : R }.
 
+(* n/d; an integer is written without the division so that 1 - z is literally [1 - z] *)
+Definition cst_val (n : Z) (d : positive) : R := match d with xH => IZR n | _ => IZR n / IZR (Zpos d) end.
+
 Fixpoint eval (sp : special) (e : expr) (z : R) (a : list R) : R :=
   match e with
-  | Cst n d => IZR n / IZR (Zpos d)
+  | Cst n d => cst_val n d
   | Zv => z
   | Arg i => nth i a 0
   | Pi => PI
@@ -56,7 +59,7 @@ Fixpoint eval_safe (sp : special) (e : expr) (z : R) (a : list R) : option R :=
     match eval_safe sp x z a, eval_safe sp y z a with Some u, Some v => Some (f u v) | _, _ => None end in
   let un (f : R -> R) x := match eval_safe sp x z a with Some u => Some (f u) | None => None end in
   match e with
-  | Cst n d => Some (IZR n / IZR (Zpos d))
+  | Cst n d => Some (cst_val n d)
   | Zv => Some z
   | Arg i => nth_error a i
   | Pi => Some PI
